@@ -63,7 +63,7 @@ def fresh_equiv(f, D, N, dr):
 
 # --------------------------------------------------------------------------- grid construction
 
-@contract('pyPRISM/core/Domain.py::Domain.build_grid', props=['C07', 'C08'])
+@contract('pyPRISM/core/Domain.py::Domain.build_grid', props=['C07', 'C08', 'C02'])
 def Domain_build_grid(self):
     N = self._length
     dr = self._dr
@@ -83,7 +83,7 @@ def _bg_cases():
     yield 'any length and spacings', build
 
 
-@contract('pyPRISM/core/Domain.py::Domain.__init__', props=['C07'])
+@contract('pyPRISM/core/Domain.py::Domain.__init__', props=['C07', 'C08', 'C02'])
 def Domain_init(self, length, dr=None, dk=None):
     self._length = length
     if dr is None and dk is None:
@@ -113,21 +113,21 @@ def _init_cases():
         yield 'given=%s' % kind, build, ({'post': post} if post else {})
 
 
-@contract('pyPRISM/core/Domain.py::Domain.dr.setter', props=['C07'])
+@contract('pyPRISM/core/Domain.py::Domain.dr.setter', props=['C07', 'C08', 'C02'])
 def Domain_set_dr(self, value):
     self._dr = value
     self._dk = PI / (value * self._length)
     self.build_grid()
 
 
-@contract('pyPRISM/core/Domain.py::Domain.dk.setter', props=['C07'])
+@contract('pyPRISM/core/Domain.py::Domain.dk.setter', props=['C07', 'C08', 'C02'])
 def Domain_set_dk(self, value):
     self._dk = value
     self._dr = PI / (value * self._length)
     self.build_grid()
 
 
-@contract('pyPRISM/core/Domain.py::Domain.length.setter', props=['C07', 'C08'])
+@contract('pyPRISM/core/Domain.py::Domain.length.setter', props=['C07', 'C08', 'C02'])
 def Domain_set_length(self, value):
     self._length = value
     self._dk = PI / (self._dr * value)        # dr is kept; the conjugate spacing follows the new length
